@@ -144,4 +144,87 @@ Definition s_pscale (self_ : (list (T A))) (times_ : (T A)) : res (list (T A)) :
   let product_ := (map (fun x_ => (mul x_ times_)) self_) in
   Ok product_.
 
+(* src/polynomial/mod.rs : impl < T > Polynomial < T > :: fn trim *)
+Definition s_ptrim (self_ : (list (T A))) : res (list (T A)) :=
+  let* i_ := usub (length self_) 1 in
+  let* o6 := while_ret (length self_) (fun (s5 : ((list (T A)) * nat)) =>
+          let '(self_, i_) := s5 in
+          let* x2 := rd self_ i_ in
+          if ((eqb x2 (@zero A)) && (0 <? i_)%nat)%bool
+          then (let n3 := (removelast self_) in
+               let self_ := n3 in
+               let* i_ := usub i_ 1 in
+               Ok (WNext (self_, i_)))
+          else (Ok (WDone (self_, i_)))) (self_, i_) in
+  match o6 with
+  | Some (inl (self_, i_)) => Ok self_
+  | Some (inr r7) => Ok r7
+  | None => Panic Guard
+  end.
+
+(* src/polynomial/arithmetic.rs : impl < T : Copy + Clone + Number + Signed + std :: fmt :: Debug > Polynomial < T > :: fn polydiv *)
+Definition s_polydiv (self_ : (list (T A))) (v_ : (list (T A))) : res (((list (T A)) * (list (T A))) + pderr) :=
+  if ((length v_) =? 0)%nat
+  then (Ok (inr EZeroDiv))
+  else (if (is_zero v_)
+       then (Ok (inr EZeroDiv))
+       else (let q_ := (@nil (T A)) in
+            let r_ := self_ in
+            let MAX_ := 1000 in
+            let count_ := 0 in
+            let* o17 := while_ret (S MAX_) (fun (s16 : ((list (T A)) * (list (T A)) * nat)) =>
+                    let '(q_, r_, count_) := s16 in
+                    let* c3 := if (negb (is_zero r_))
+                        then (match (pdegree r_) with
+                             | Some d1 => match (pdegree v_) with
+                                 | Some d2 => Ok (d2 <=? d1)%nat
+                                 | None => Panic Unwrap
+                                 end
+                             | None => Panic Unwrap
+                             end)
+                        else (Ok false) in
+                    if c3
+                    then (let t_ := (@nil (T A)) in
+                         match (pdegree r_) with
+                         | Some d4 => match (pdegree v_) with
+                             | Some d5 => let* d6 := usub d4 d5 in
+                                 let t_ := (repeat (@zero A) (d6 + 1)%nat) in
+                                 match (pdegree r_) with
+                                 | Some d7 => let* x8 := rd r_ d7 in
+                                     match (pdegree v_) with
+                                     | Some d9 => let* x10 := rd v_ d9 in
+                                         let* q11 := div x8 x10 in
+                                         match (pdegree r_) with
+                                         | Some d12 => match (pdegree v_) with
+                                             | Some d13 => let* d14 := usub d12 d13 in
+                                                 let* t_ := upd t_ d14 q11 in
+                                                 let q_ := (padd q_ t_) in
+                                                 let r_ := (psub r_ (pmul t_ v_)) in
+                                                 let* lead_ := usub (length r_) 1 in
+                                                 let* r_ := upd r_ lead_ (@zero A) in
+                                                 let* r_ := ptrim r_ in
+                                                 let* q_ := ptrim q_ in
+                                                 let count_ := (count_ + 1)%nat in
+                                                 if (MAX_ <? count_)%nat
+                                                 then (Ok (WRet (inr EMaxIter)))
+                                                 else (Ok (WNext (q_, r_, count_)))
+                                             | None => Panic Unwrap
+                                             end
+                                         | None => Panic Unwrap
+                                         end
+                                     | None => Panic Unwrap
+                                     end
+                                 | None => Panic Unwrap
+                                 end
+                             | None => Panic Unwrap
+                             end
+                         | None => Panic Unwrap
+                         end)
+                    else (Ok (WDone (q_, r_, count_)))) (q_, r_, count_) in
+            match o17 with
+            | Some (inl (q_, r_, count_)) => Ok (inl (q_, r_))
+            | Some (inr r18) => Ok r18
+            | None => Ok (inr EMaxIter)
+            end)).
+
 End SrcPoly.
